@@ -39,29 +39,40 @@ def run_simd(c, want):
     allrecs = []
     for name, recs in collect(c):
         allrecs += [e for e in recs if e["ev"] == "op" and want(e)]
-    n = len(allrecs)
-    # canary: a real accepted-looking event with one output bit flipped must be rejected
-    can = None
-    for e in allrecs[c.seed % n:] + allrecs:
-        if e["res"] == "ok" and e["out"]:
-            can = copy.deepcopy(e)
-            can["out"][0] ^= 4
-            can["cfg"] = "canary"
-            break
-    trace = os.path.join(wd, "simd-all.ndjson")
-    vlib.write_ndjson(trace, allrecs + [can])
-    rej, r = vlib.validate_trace("TraceSimd", trace, workers=8, timeout=3000, expect_states=2 * (n + 1))
-    idx = sorted(l for l, _ in rej)
-    if n + 1 not in idx:
-        raise vlib.ToolError("canary op event was not rejected: TraceSimd validation is not binding")
-    for l in idx:
-        if l == n + 1:
-            continue
-        e = allrecs[l - 1]
-        mach = e["mach"].replace("ppv_lite86::x86_64::", "").replace("ppv_lite86::generic::", "")
-        d = {"ty": e["ty"], "op": e["op"], "mach": mach, "res": e["res"].split(":")[0]}
-        c.violation(d, [e], "vector op rejected by SimdOps: %s.%s on %s (%s) res=%s a=%s out=%s" %
-                    (e["ty"], e["op"], mach, e["cfg"], e["res"], vlib.shorten(e["a"], 16), vlib.shorten(e["out"], 16)))
+    import json
+    # the scalar meaning has no backend parameter: identical (type, op, operands, outcome) records of different backends /
+    # configurations are validated once; a backend that deviates produces a distinct record, validated - and rejected - by itself
+    uniq = {}
+    for e in allrecs:
+        uniq.setdefault(json.dumps([e["ty"], e["op"], e["a"], e["b"], e["i"], e["out"], e["res"]]), e)
+    recs = list(uniq.values())
+    c.cov["distinct_outcomes_validated_by_tlc"] = len(recs)
+    for s0 in range(0, len(recs), 40000):      # shards: TLC's JSON loader degrades badly beyond ~40 k records
+        part = recs[s0:s0 + 40000]
+        n = len(part)
+        # canary: a real accepted-looking event with one output bit flipped must be rejected
+        can = None
+        for e in part[c.seed % n:] + part:
+            if e["res"] == "ok" and e["out"]:
+                can = copy.deepcopy(e)
+                can["out"][0] ^= 4
+                can["cfg"] = "canary"
+                break
+        trace = os.path.join(wd, "simd-all.ndjson")
+        vlib.write_ndjson(trace, part + [can])
+        rej, r = vlib.validate_trace("TraceSimd", trace, workers=12, timeout=3000, expect_states=2 * (n + 1))
+        os.remove(trace)
+        idx = sorted(l for l, _ in rej)
+        if n + 1 not in idx:
+            raise vlib.ToolError("canary op event was not rejected: TraceSimd validation is not binding")
+        for l in idx:
+            if l == n + 1:
+                continue
+            e = part[l - 1]
+            mach = e["mach"].replace("ppv_lite86::x86_64::", "").replace("ppv_lite86::generic::", "")
+            d = {"ty": e["ty"], "op": e["op"], "mach": mach, "res": e["res"].split(":")[0]}
+            c.violation(d, [e], "vector op rejected by SimdOps: %s.%s on %s (%s) res=%s a=%s out=%s" %
+                        (e["ty"], e["op"], mach, e["cfg"], e["res"], vlib.shorten(e["a"], 16), vlib.shorten(e["out"], 16)))
     c.add_events(allrecs, key=lambda e: (e["mach"], e["ty"], e["op"], e["a"], e["b"], e["i"]), sample=2)
     triples = sorted({(e["mach"].split("::")[-1], e["ty"], e["op"]) for e in allrecs})
     c.cov["backend_type_op_triples"] = len(triples)
